@@ -53,6 +53,24 @@ def mrq_program(K, start):
     return prog
 
 
+def pets_program(K):
+    def prog(ctx):
+        tr = L.run_pets(ctx, "pets", K, 0, symbolic=("learning_starts",))
+        ctx.check(tr.env.n_steps == K, "never-executes-more-steps-than-the-remaining-budget")
+        ls = tr.cfg["learning_starts"]
+        ups = {}
+        for (_, at, p) in tr.w.of("update_dynamics_model"):
+            ups[at] = ups.get(at, 0) + 1
+        for t in range(K):
+            want = (t >= ls) & (((t - ls) % 2) == 0)   # n_steps_per_iteration = 2 in the runner
+            got = ups.get(t, 0)
+            ctx.check((got == 1) == want, "pets:model-updates-exactly-every-n-steps-after-the-warm-up(no-update-before-learning_starts)")
+        for (_, at, p) in tr.w.of("planner"):
+            if not p["warmup"]:
+                ctx.check(at >= ls, "pets:planner-actions-only-after-warm-up")
+    return prog
+
+
 def rollout_program(ctx):
     """generate_rollout: one episode, never stepping past its end."""
     from rl_blox.util import experiment_helper as eh
@@ -208,6 +226,8 @@ def main(tier, seed):
         for start in starts:
             rep.run(f"train_td7[K={K},global_step={start}]", td7_program(K, start), fn="rl_blox.algorithm.td7.train_td7/_train_step", site_of=lambda label: f"train_td7:{label}")
             rep.run(f"train_mrq[K={K},global_step={start}]", mrq_program(K, start), fn="rl_blox.algorithm.mrq.train_mrq", site_of=lambda label: f"train_mrq:{label}")
+    for K in ([3, 4] if tier == "quick" else [3, 4, 5, 6]):
+        rep.run(f"train_pets[K={K}]", pets_program(K), fn="rl_blox.algorithm.pets.train_pets", site_of=lambda label: f"train_pets:{label}")
     rep.run("generate_rollout", rollout_program, fn="rl_blox.util.experiment_helper.generate_rollout", site_of=lambda label: f"generate_rollout:{label}")
     for total, eps in ([(3, 1), (4, 2)] if tier == "quick" else [(3, 1), (4, 2), (5, 2), (6, 3)]):
         rep.run(f"train_uts[total={total},episodes_per_task={eps}]", uts_program(total, eps), fn="rl_blox.algorithm.uniform_task_sampling.train_uts (train_st = contract stub)",
